@@ -263,6 +263,48 @@ func checkC12(c *Ctx) {
 		}
 	}
 
+	// ---- C12-RAW: the text of a string reaches printed output only through the string printer
+	{
+		strS := c.field("SexpStr", "S")
+		n, nRaw := 0, 0
+		if strS != nil {
+			for _, f := range c.zygoFuncs() {
+				if topFn(f).Name() != "SexpString" {
+					continue
+				}
+				// the printers of the data values the property names; the
+				// string printer itself is where the escaping happens
+				// (C12-ESC), and a struct's field declaration is not data
+				recv := strings.SplitN(fnName(topFn(f)), ".", 2)[0]
+				if !c12DataPrinters[recv] {
+					continue
+				}
+				eachInstr(f, func(b *ssa.BasicBlock, i int, in ssa.Instruction) {
+					bo, ok := in.(*ssa.BinOp)
+					if !ok || bo.Op != token.ADD {
+						return
+					}
+					if bt, ok := bo.Type().Underlying().(*types.Basic); !ok || bt.Info()&types.IsString == 0 {
+						return
+					}
+					n++
+					for _, op := range []ssa.Value{bo.X, bo.Y} {
+						if _, isRaw := loadOfField(op, strS); isRaw {
+							nRaw++
+							c.bad("C12-RAW", fnName(f), "raw string text concatenated into printed output", bo.Pos(),
+								"the text of a string value is pasted into a printed form without going through the string printer: quotes, backslashes and control characters in it are not escaped, so the printed form is rejected by the reader or reads back as different data")
+						}
+					}
+				})
+			}
+		}
+		if nRaw == 0 {
+			c.check(n >= 10, "C12-RAW", "printers", "raw string text concatenated into printed output", token.NoPos,
+				fmt.Sprintf("%d string concatenations in the printers examined: none pastes the raw text of a string value", n),
+				fmt.Sprintf("only %d string concatenations found in the printers", n))
+		}
+	}
+
 	// ---- C12-NUM
 	c.checkTokenArms()
 
@@ -460,3 +502,6 @@ func (c *Ctx) checkLookbackRing(rule string) {
 		c.undecided(rule, "Lexer", "ring accesses", token.NoPos, fmt.Sprintf("only %d accesses of the look-back ring found", n))
 	}
 }
+
+var c12DataPrinters = map[string]bool{"SexpInt": true, "SexpUint64": true, "SexpFloat": true, "SexpBool": true, "SexpChar": true,
+	"SexpSentinel": true, "SexpSymbol": true, "SexpPair": true, "SexpArray": true, "SexpHash": true, "SexpRaw": true}
